@@ -172,13 +172,25 @@ def slow_sets():
     return st.one_of(st.just([]), st.just([]), st.lists(st.integers(0, 7), min_size=1, max_size=2))
 
 
+def _lcg_schedule(t):
+    seed, n = t
+    out, x = [], seed or 1
+    for _ in range(n):
+        x = (x * 1103515245 + 12345) % (2 ** 31)
+        out.append((x >> 8) % 1000)
+    return out
+
+
 def schedules(max_len=60):
     """A delivery/start schedule: list of ints interpreted by SimNet.  Mix of near-canonical
     (short), long uniform and adversarial (skewed towards extreme indices) shapes."""
     uni = st.lists(st.integers(0, 1000), max_size=max_len)
     short = st.lists(st.integers(0, 1000), max_size=6)
     skew = st.lists(st.sampled_from([0, 0, 0, 1, 999, 999, 998]), max_size=max_len)
-    base = st.one_of(short, uni, uni, skew)
+    # long pseudo-random schedules expanded from (seed, length) by a fixed LCG: a pure function of the generated
+    # pair (no RNG call), cheap for Hypothesis to produce, shrinks towards short / small seeds
+    scrambled = st.tuples(st.integers(0, 2 ** 31 - 1), st.integers(10, 4 * max_len)).map(_lcg_schedule)
+    base = st.one_of(short, uni, uni, skew, scrambled, scrambled)
     # optional prefix declaring slow computations (see vf/simnet.py: entries >= 10000)
     return st.tuples(slow_sets(), base).map(lambda t: [10000 + i for i in t[0]] + t[1])
 
